@@ -8,12 +8,14 @@ actions, executions = arbitrary interleavings (`exec` over a schedule that also 
 **Proved** (for every number of operations, every program over the alphabet, every schedule, every `Get` choice):
 results and private states of an operation do not depend on what the other operations do (`C15_non_interference`), the
 pool only ever holds zeroed arrays (`C15_pool_inv`), results do not even rest on that (`C15_op_result_indep_of_pool`),
-actions of different operations commute (`C15_actions_commute`), and no operation writes a caller's options object that
-another operation uses — provided shared options have their `Factory` set (`C15_no_conflict_partial`).
+actions of different operations commute (`C15_actions_commute`), and no operation ever writes a caller's options object
+— `Factory` set or nil, shared or not (`C15_options_never_written`, `C15_no_conflict`); a conversion with a shared
+options object yields its solo result (`C15_shared_options_result`). Until /repo's repair of KF-C15-1 (F16) the last
+three held only for options whose `Factory` is set: `ToMesg` assigned the default to the caller's object.
 
 **Runtime truth, not proved**: absence of word-level data races in the compiled binary under the Go memory model. The
 model knows the shared cells listed in FitModel/Shared.lean; a shared word it does not know is visible only to the race
-detector, which the `concurrent` family runs in the thorough tier (every report other than the KF-C15-1 site fails the check). -/
+detector, which the `concurrent` family runs under in both tiers (every report fails the check). -/
 namespace Fit.C15
 open Fit.Shared
 
@@ -65,41 +67,56 @@ theorem C15_non_interference (progs : List (List Act)) (sh0 : Sh) (h0 : ShOK sh0
     rw [this]; simp)
   rw [h1, h2, hdone]
 
+/-- **options_never_written**: for every set of operations, from every initial shared state and under every interleaving,
+every caller-provided options object — `Factory` set or nil, used by one operation or shared by many — is at every moment
+exactly what the caller made it: the library only READS option values. (No hypothesis at all; before the repair of
+KF-C15-1 this failed for a nil `Factory`, which every `ToMesg` overwrote.) -/
+theorem C15_options_never_written (progs : List (List Act)) (sh0 : Sh) (sched : List (Nat × Nat)) :
+    (exec (initCfg progs sh0) sched).sh.opts = sh0.opts :=
+  opts_exec sched _
+
 /-- the full demand on shared caller objects: NO reachable configuration has a thread about to write an options object
-that another thread still accesses -/
+that another thread still accesses (write = the cell differs after the action, for some resolution of `Get`) -/
 def C15_no_conflict_full : Prop :=
   ∀ (progs : List (List Act)) (sh0 : Sh), ShOK sh0 → ∀ sched, ¬ ConflictAt (exec (initCfg progs sh0) sched)
 
-/-- **C15_no_conflict_partial**: if every options object used by two different operations has its `Factory` set, no
-operation ever writes an options object another operation uses (the nil check in `ToMesg` only reads). -/
-theorem C15_no_conflict_partial (progs : List (List Act)) (sh0 : Sh) (h0 : ShOK sh0) (hs : SharedOptsSet progs sh0)
-    (sched : List (Nat × Nat)) : ¬ ConflictAt (exec (initCfg progs sh0) sched) :=
-  no_conflict progs sh0 h0 hs sched
+/-- **C15_no_conflict** (full strength; was `C15_no_conflict_partial` under the hypothesis "shared options have their
+`Factory` set" while KF-C15-1 was open): no operation ever writes an options object another operation uses. -/
+theorem C15_no_conflict : C15_no_conflict_full :=
+  fun _ _ _ _ => no_conflict_any _
 
-/-- **Known finding KF-C15-1 (F16)**: two `ToMesg` conversions that share one `*mesgdef.Options` with nil `Factory`: the
-first is about to WRITE `options.Factory` while the second still reads/writes it — the full statement is false. -/
-theorem C15_KF1_witness : ¬ C15_no_conflict_full := by
-  intro h
-  exact h kfProgs kfSh kf_conflict.1 [] kf_conflict.2
+/-- **C15_shared_options_result** (concurrent = solo for conversions with a caller's options object, shared or not, `Factory`
+set or NIL): in every set of operations and every interleaving, a finished `x.ToMesg(options)` used the factory the
+caller's object named at the start — the standard factory if it named none — and produced exactly its own fields,
+however many other conversions used the same object meanwhile. -/
+theorem C15_shared_options_result (progs : List (List Act)) (sh0 : Sh) (h0 : ShOK sh0) (sched : List (Nat × Nat)) (i : Nat)
+    (t : Thread) (o : Nat) (vals : List Nat) (ht : (exec (initCfg progs sh0) sched).threads[i]? = some t)
+    (hp : progs[i]? = some (progToMesg o vals)) (hfin : t.todo = []) :
+    t.priv.out = (sh0.opts o).getD stdFactory :: vals := by
+  rw [finished_eq_solo progs sh0 h0 sched i t _ ht hp hfin]
+  simp [soloPriv, progToMesg, privSolo, initPriv]
 
-/-- non-vacuity: a well-formed initial state, and two conversions sharing a SET options object meet the hypotheses -/
-example : ShOK { once := false, table := fun _ => 0, pool := [zeroArr], opts := fun o => if o = 0 then some 7 else none } ∧
-    SharedOptsSet [progToMesg 0 [1], progToMesg 0 [2], progToMesg 1 [3]]
-      { once := false, table := fun _ => 0, pool := [zeroArr], opts := fun o => if o = 0 then some 7 else none } := by
-  refine ⟨⟨by simp, by simp⟩, ?_⟩
-  intro o i j pi pj hij hi hj hmi hmj
-  by_cases ho : o = 0
-  · simp [ho]
-  · exfalso
-    -- only object 1 is left, and only the third program mentions it
-    have : ∀ (k : Nat) (pk : List Act), [progToMesg 0 [1], progToMesg 0 [2], progToMesg 1 [3]][k]? = some pk →
-        mentions pk o = true → k = 2 := by
-      intro k pk hk hm
-      match k, hk with
-      | 0, hk => simp at hk; subst hk; simp [mentions, progToMesg] at hm; exact absurd hm.symm ho
-      | 1, hk => simp at hk; subst hk; simp [mentions, progToMesg] at hm; exact absurd hm.symm ho
-      | 2, _ => rfl
-      | k + 3, hk => simp at hk
-    exact hij ((this i pi hi hmi).trans (this j pj hj hmj).symm)
+/-- non-vacuity (the witness of the former finding KF-C15-1: two conversions sharing ONE options object whose `Factory`
+is nil, `kfProgs`/`kfSh`): the hypotheses hold, and under an interleaved schedule both conversions finish with the
+standard factory and their own fields while the shared object still has a nil `Factory` -/
+example : ShOK kfSh ∧
+    ((exec (initCfg kfProgs kfSh) [(0, 0), (1, 0), (1, 1), (0, 1), (0, 0), (1, 2), (1, 0), (0, 3), (0, 0), (1, 1)]).threads.map
+      (fun t => (t.todo, t.priv.out))) = [([], [stdFactory, 1]), ([], [stdFactory, 2])] ∧
+    (exec (initCfg kfProgs kfSh) [(0, 0), (1, 0), (1, 1), (0, 1), (0, 0), (1, 2), (1, 0), (0, 3), (0, 0), (1, 1)]).sh.opts 0 = none :=
+  ⟨kfSh_ok, by decide, rfl⟩
+
+/-- non-vacuity of the conflict notion: it is not a predicate that nothing satisfies — under the step semantics of the
+code before the repair (`stepPreFix`: the nil check assigns `options.Factory`) the same witness IS a conflict -/
+example : ConflictAtWith stepPreFix (initCfg kfProgs kfSh) := kf_conflict_preFix
+
+/-- non-vacuity: a well-formed initial state with one SET and one NIL options object, three conversions of which two share
+the set one and two share the nil one: `C15_shared_options_result` applies to each of them in a finished interleaving -/
+example :
+    let sh0 : Sh := { once := false, table := fun _ => 0, pool := [zeroArr], opts := fun o => if o = 0 then some 7 else none }
+    let progs := [progToMesg 0 [1], progToMesg 1 [2], progToMesg 0 [3], progToMesg 1 [4]]
+    let sched := (List.range 20).map (fun n => (n % 4, n % 3))
+    ShOK sh0 ∧ ((exec (initCfg progs sh0) sched).threads.map (fun t => (t.todo, t.priv.out))) =
+      [([], [7, 1]), ([], [stdFactory, 2]), ([], [7, 3]), ([], [stdFactory, 4])] := by
+  refine ⟨⟨by simp, by simp⟩, by decide⟩
 
 end Fit.C15
